@@ -218,7 +218,7 @@ func (e *Engine) appendOp(st *State, s SliceV, tv Value, st0 types.Type) Value {
 		n = e.concInt(st, t.len)
 		if n > 0 {
 			toff := e.concInt(st, t.off)
-			tarr := st.heap[t.obj].(*ArrV)
+			tarr := st.sliceArr(t)
 			get = func(i int) Value { return tarr.get(toff + i) }
 		}
 	case *StrV:
@@ -239,15 +239,15 @@ func (e *Engine) appendOp(st *State, s SliceV, tv Value, st0 types.Type) Value {
 	if sl+n <= sc {
 		e.raceAccess(st, s.obj, true)
 		soff := e.concInt(st, s.off)
-		arr := st.heap[s.obj].(*ArrV)
+		arr := st.sliceArr(s)
 		idx := make([]int, n)
 		vals := make([]Value, n)
 		for i := 0; i < n; i++ {
 			idx[i] = soff + sl + i
 			vals[i] = get(i)
 		}
-		st.heap[s.obj] = arr.setMany(idx, vals)
-		return SliceV{obj: s.obj, off: s.off, len: e.i64(uint64(sl + n)), cap: s.cap}
+		st.setSliceArr(s, arr.setMany(idx, vals))
+		return SliceV{obj: s.obj, path: s.path, off: s.off, len: e.i64(uint64(sl + n)), cap: s.cap}
 	}
 	// grow
 	nc := sl + n
@@ -260,7 +260,7 @@ func (e *Engine) appendOp(st *State, s SliceV, tv Value, st0 types.Type) Value {
 	m := make(map[int]Value, sl+n)
 	if sl > 0 {
 		soff := e.concInt(st, s.off)
-		arr := st.heap[s.obj].(*ArrV)
+		arr := st.sliceArr(s)
 		e.raceAccess(st, s.obj, false)
 		for i := 0; i < sl; i++ {
 			if v, ok := arr.m[soff+i]; ok {
@@ -286,7 +286,7 @@ func (e *Engine) copyOp(st *State, d SliceV, sv Value) Value {
 		n = e.concInt(st, s.len)
 		if n > 0 {
 			soff := e.concInt(st, s.off)
-			sarr := st.heap[s.obj].(*ArrV)
+			sarr := st.sliceArr(s)
 			get = func(i int) Value { return sarr.get(soff + i) }
 		}
 	case *StrV:
@@ -311,7 +311,7 @@ func (e *Engine) copyOp(st *State, d SliceV, sv Value) Value {
 		idx[i] = doff + i
 		vals[i] = get(i) // reads happen before writes (memmove semantics)
 	}
-	st.heap[d.obj] = st.heap[d.obj].(*ArrV).setMany(idx, vals)
+	st.setSliceArr(d, st.sliceArr(d).setMany(idx, vals))
 	return e.i64(uint64(n))
 }
 
